@@ -30,83 +30,85 @@ def kwOr (s : String) : Expr :=
 mutual
 def parseL (c : Cfg) : Nat → Nat → List Tok → Option (Expr × List Tok)
   | 0, _, _ => none
-  | n + 1, 0, t =>
-    match t with
-    | .id s :: r => some (kwOr s, r)
-    | .num s :: r => some (c.numOf s, r)
-    | .str s :: r => some (.str s, r)
-    | .p s :: r =>
-      if s = "(" then
-        (match parseL c n 13 r with
-         | some (x, .p s' :: r') => if s' = ")" then some (x, r') else none
-         | _ => none)
-      else if s = "[" then
-        (match parseItems c n r with
-         | some (fs, .p s' :: r') => if s' = "]" then some (.arr fs, r') else none
-         | _ => none)
-      else if s = "{" then
-        (match parseFields c n r with
-         | some (fs, .p s' :: r') => if s' = "}" then some (.obj fs, r') else none
-         | _ => none)
-      else none
-    | [] => none
-  | n + 1, 2, t =>
-    match t with
-    | .p s :: r =>
-      (match unOpOf s with
-       | some op =>
-         (match parseL c n 2 r with
-          | some (x, r') => some (.un op x, r')
-          | none => none)
-       | none => parseL c n 1 t)
-    | _ => parseL c n 1 t
-  | n + 1, L + 1, t =>
-    match parseL c n L t with
-    | some (x, r) => contAt c n (L + 1) x r
-    | none => none
+  | n + 1, L, t =>
+    if L = 0 then
+      (match t with
+       | .id s :: r => some (kwOr s, r)
+       | .num s :: r => some (c.numOf s, r)
+       | .str s :: r => some (.str s, r)
+       | .p s :: r =>
+         if s = "(" then
+           (match parseL c n 13 r with
+            | some (x, .p s' :: r') => if s' = ")" then some (x, r') else none
+            | _ => none)
+         else if s = "[" then
+           (match parseItems c n r with
+            | some (fs, .p s' :: r') => if s' = "]" then some (.arr fs, r') else none
+            | _ => none)
+         else if s = "{" then
+           (match parseFields c n r with
+            | some (fs, .p s' :: r') => if s' = "}" then some (.obj fs, r') else none
+            | _ => none)
+         else none
+       | [] => none)
+    else if L = 2 then
+      (match t with
+       | .p s :: r =>
+         (match unOpOf s with
+          | some op =>
+            (match parseL c n 2 r with
+             | some (x, r') => some (.un op x, r')
+             | none => none)
+          | none => parseL c n 1 t)
+       | _ => parseL c n 1 t)
+    else
+      (match parseL c n (L - 1) t with
+       | some (x, r) => contAt c n L x r
+       | none => none)
 def contAt (c : Cfg) : Nat → Nat → Expr → List Tok → Option (Expr × List Tok)
   | 0, _, _, _ => none
-  | n + 1, 1, x, t =>
-    match t with
-    | .p s :: r =>
-      if s = "." then
-        (match r with
-         | .id f :: r' => contAt c n 1 (.smember x f) r'
-         | _ => none)
-      else if s = "[" then
-        (match parseL c n 13 r with
-         | some (i, .p s' :: r') => if s' = "]" then contAt c n 1 (.dmember x i) r' else none
-         | _ => none)
-      else if s = "(" then
-        (match parseArgs c n r with
-         | some (as, .p s' :: r') => if s' = ")" then contAt c n 1 (.call x as) r' else none
-         | _ => none)
-      else some (x, t)
-    | _ => some (x, t)
-  | n + 1, 13, x, t =>
-    match t with
-    | .p s :: r =>
-      if s = "?" then
-        (match parseL c n 13 r with
-         | some (a, .p s' :: r') =>
-           if s' = ":" then
-             (match parseL c n 13 r' with
-              | some (b, r'') => some (.cond x a b, r'')
-              | none => none)
-           else none
-         | _ => none)
-      else some (x, t)
-    | _ => some (x, t)
   | n + 1, L, x, t =>
-    match t with
-    | .p s :: r =>
-      (match binOpAt L s with
-       | some op =>
-         (match parseL c n (L - 1) r with
-          | some (y, r') => contAt c n L (.bin op x y) r'
-          | none => none)
-       | none => some (x, t))
-    | _ => some (x, t)
+    if L = 1 then
+      (match t with
+       | .p s :: r =>
+         if s = "." then
+           (match r with
+            | .id f :: r' => contAt c n 1 (.smember x f) r'
+            | _ => none)
+         else if s = "[" then
+           (match parseL c n 13 r with
+            | some (i, .p s' :: r') => if s' = "]" then contAt c n 1 (.dmember x i) r' else none
+            | _ => none)
+         else if s = "(" then
+           (match parseArgs c n r with
+            | some (as, .p s' :: r') => if s' = ")" then contAt c n 1 (.call x as) r' else none
+            | _ => none)
+         else some (x, t)
+       | _ => some (x, t))
+    else if L = 13 then
+      (match t with
+       | .p s :: r =>
+         if s = "?" then
+           (match parseL c n 13 r with
+            | some (a, .p s' :: r') =>
+              if s' = ":" then
+                (match parseL c n 13 r' with
+                 | some (b, r'') => some (.cond x a b, r'')
+                 | none => none)
+              else none
+            | _ => none)
+         else some (x, t)
+       | _ => some (x, t))
+    else
+      (match t with
+       | .p s :: r =>
+         (match binOpAt L s with
+          | some op =>
+            (match parseL c n (L - 1) r with
+             | some (y, r') => contAt c n L (.bin op x y) r'
+             | none => none)
+          | none => some (x, t))
+       | _ => some (x, t))
 /-- call arguments, up to (not including) the `)` -/
 def parseArgs (c : Cfg) : Nat → List Tok → Option (Exprs × List Tok)
   | 0, _ => none
